@@ -27,6 +27,9 @@ import (
 type eventCh[T any] struct {
 	id int
 	ch chan<- T
+	// closeEventCh is closed when the subscriber leaves, before it asks for the
+	// lock: it releases an execute that is blocked on the subscriber's buffer.
+	closeEventCh chan struct{}
 }
 
 // Batcher is a one to many event batcher. It batches events and sends them to
@@ -83,14 +86,18 @@ func (b *Batcher[K, T]) subscribe(ctx context.Context, ch chan<- T) {
 	id := b.currentID
 	b.currentID++
 	bufferedCh := make(chan T, 50)
+	closeEventCh := make(chan struct{})
 	b.eventChs = append(b.eventChs, &eventCh[T]{
-		id: id,
-		ch: bufferedCh,
+		id:           id,
+		ch:           bufferedCh,
+		closeEventCh: closeEventCh,
 	})
 
 	b.wg.Add(1)
 	go func() {
 		defer func() {
+			close(closeEventCh)
+
 			b.lock.Lock()
 			close(ch)
 			for i, eventCh := range b.eventChs {
@@ -128,6 +135,7 @@ func (b *Batcher[K, T]) execute(i *item[K, T]) {
 	}
 	for _, ev := range b.eventChs {
 		select {
+		case <-ev.closeEventCh:
 		case ev.ch <- i.value:
 		case <-b.closeCh:
 		}
@@ -149,12 +157,17 @@ func (b *Batcher[K, T]) Batch(key K, value T) {
 // subscribers. The batcher will be a no-op after this call.
 func (b *Batcher[K, T]) Close() {
 	defer b.wg.Wait()
-	b.queue.Close()
-	b.lock.Lock()
+	// Signal the close before waiting for the queue or asking for the lock: an
+	// execute that is blocked on a subscriber's full buffer holds the lock and
+	// is only released by closeCh.
 	if b.closed.CompareAndSwap(false, true) {
 		close(b.closeCh)
 	}
-	b.lock.Unlock()
+	b.queue.Close()
+	// Wait for a Subscribe or execute that may have read the closed flag just
+	// before it was set, so that every forwarder it registers is waited for.
+	b.lock.Lock()
+	b.lock.Unlock() //nolint:staticcheck
 }
 
 // item implements queue.queueable.
